@@ -56,11 +56,12 @@ def Heap.get? (h : Heap) (a : Nat) : Option HObj := h[a]?
 def Heap.set (h : Heap) (a : Nat) (o : HObj) : Heap := List.set h a o
 
 /-- one VM state (`VMState`): its scope stack above the builtins (top first; heap addresses of
-    dicts; the last entry is the host's names mapping), op counter and budget -/
+    dicts; the last entry is the host's names mapping) and its op counter.  The budget
+    (`max_ops_evaluated`) is kept *outside* the world, in `Cfg.budgets`, so that the only code
+    that can read it is the charge-and-compare in `step` — by typing. -/
 structure VM where
   scopes : List Nat
   ops : Nat
-  max : Nat
   deriving Repr, Inhabited
 
 inductive Event
